@@ -108,6 +108,27 @@ def gen_bw_tangle(rng, idx):
     return [p.encode() for p in pats]
 
 
+def gen_bw_infix(rng, idx):
+    """Seeded sets built around the shape C03's text names -- a pattern that ends inside another
+    pattern's (failed) continuation: a long pattern L, a short pattern S that is an infix of L (not a
+    prefix), a pattern that follows L one symbol past S and then diverges, plus 0-2 random extras."""
+    sym = "abcdxyz"
+    ln = rng.randint(4, 6)
+    L = "".join(rng.choice(sym) for _ in range(ln))
+    i = rng.randint(1, ln - 2)
+    j = rng.randint(i + 1, ln - 1)
+    S = L[i:j]
+    T = L[i:j + 1] + rng.choice(sym)
+    pats = {L, S, T}
+    for _ in range(rng.randint(0, 2)):
+        pats.add("".join(rng.choice(sym) for _ in range(rng.randint(1, 3))))
+    if rng.random() < 0.5:
+        pats.add(L[j - 1:j + 1] if j - 1 >= 0 else L[:1])
+    pats = sorted(pats)
+    rng.shuffle(pats)
+    return [p.encode() for p in pats]
+
+
 def gen_bw_edge(rng, idx):
     """Tiny seeded sets over bytes at the edges of a 256-slot block (0x00.., ..0xFF): 2-4 patterns of
     length 1-2.  Cheap to validate (T1 ~5 s) and they move BASE values onto the slots whose CHECK
